@@ -9,7 +9,25 @@
 import itertools
 import random
 
-EVENTS = ["-- vsg_off", "-- vsg_off a_001", "-- vsg_off b_002 : reason", "-- vsg_off a_001 b_002", "-- vsg_on", "-- vsg_on a_001", "-- vsg_on b_002 a_001", "-- vsg_disable_next_line a_001", "-- vsg_disable_next_line b_002", "CR", "code", "-- plain comment"]
+# remarks are written with the colon detached (as in docs/code_tags.rst) and attached to the last word: the remark starts at the
+# first ':' of the comment either way
+EVENTS = [
+    "-- vsg_off",
+    "-- vsg_off a_001",
+    "-- vsg_off b_002 : reason",
+    "-- vsg_off a_001: reason b_002",
+    "-- vsg_off: legacy code",
+    "-- vsg_off a_001 b_002",
+    "-- vsg_on",
+    "-- vsg_on a_001",
+    "-- vsg_on a_001: done",
+    "-- vsg_on b_002 a_001",
+    "-- vsg_disable_next_line a_001",
+    "-- vsg_disable_next_line b_002: why",
+    "CR",
+    "code",
+    "-- plain comment",
+]
 IDS = ["a_001", "b_002", "c_003"]
 
 
